@@ -19,6 +19,7 @@
 import Abnf.Engine
 import Abnf.EngineC
 import Abnf.DriverExt
+import Abnf.DriverCache
 import Abnf.Ref
 import Std.Data.HashMap
 open Abnf
@@ -94,13 +95,6 @@ def showPRes : PRes → String
 
 def nats (l : List String) : List Nat := l.map String.toNat!
 
-abbrev HM := Std.HashMap (Nat × Src × Nat) CVal
-
-/-- unlimited hash-map cache (speed only; see Theorems/C08 for why any such cache is invisible) -/
-def hmOps : CacheOps HM where
-  lookup st cid s i := (st.get? (cid, s, i), st)
-  store st cid s i v := st.insert (cid, s, i) v
-
 def handle (G : Grammar) (toks : List String) (st : HM) (x : Abnf.Ext.XState) : String × HM × Abnf.Ext.XState :=
   match toks with
   | "lparse" :: r :: i :: cps =>
@@ -162,7 +156,10 @@ partial def loop (hin : IO.FS.Stream) (hout : IO.FS.Stream) (G : Grammar) (st : 
   | [] => loop hin hout G st x
   | ["G", n] =>
     match ← readRules hin n.toNat! #[] with
-    | some G' => hout.putStrLn "grammar-ok"; loop hin hout G' {} x
+    | some G' =>
+      -- the cached commands are justified only if the cache ids identify one repetition each (Abnf/DriverCache.lean)
+      if cidsOkG G' then hout.putStrLn "grammar-ok"; loop hin hout G' {} x
+      else hout.putStrLn "grammar-bad-cids"; loop hin hout #[] {} x
     | none => hout.putStrLn "grammar-bad"; loop hin hout G st x
   | ["clear"] => hout.putStrLn "cleared"; loop hin hout G {} x
   | _ =>
